@@ -133,10 +133,19 @@ def structure_rules(repo, res):
         t = A.resolve(comp, renvs.get(id(comp)) or renvs.get(id(tail)) or A.fn_env(rfn))
         found = []
 
+        seen_locals = set()
+
         def visit(x):
             if isinstance(x, tuple):
                 if x and x[0] == "param" and x[1] == want_param:
                     found.append(x)
+                if x and x[0] == "local" and x[1] not in seen_locals:
+                    # a container filled by a loop: what is put into it counts
+                    seen_locals.add(x[1])
+                    for m in A.walk(rfn.body):
+                        if m["k"] == "MethodCall" and m["method"] in ("insert", "push", "extend", "append") and m["recv"].get("k") == "Path" and m["recv"]["path"] == x[1]:
+                            for a in m["args"]:
+                                visit(A.resolve(a, renvs.get(id(m)) or A.fn_env(rfn)))
                 for y in x:
                     visit(y)
         visit(t)
